@@ -433,6 +433,11 @@ macro_rules! runner {
             self.multis.get_mut(&((s.a - 1) as usize)).expect("mappend: not a composite").append(child);
             Val::U
           }
+          "mclosed" => Val::B(self.multis.get(&((s.a - 1) as usize)).expect("mclosed: not a composite").is_closed()),
+          "bsunsub" => {
+            Subscription::unsubscribe(self.env.behaviors[(s.a - 1) as usize].clone());
+            Val::U
+          }
           "mretain" => {
             self.multis.get_mut(&((s.a - 1) as usize)).expect("mretain: not a composite").retain();
             Val::U
